@@ -324,11 +324,49 @@ def run(ck):
         ck.add_violation('translator', 'opcode table translator failed: ' + (out + err)[-300:], {'cmd': 'translators/gen_opcodes.py'}, found_input=False)
         return
     T = G.Table(subprocess.run([os.path.join(trdir, 'dump_opcodes')], capture_output=True, text=True).stdout)
+    # guards, ReadUInt bounds and switch structure of the reader, from clang's typed AST of the instantiated templates
+    rc, out, err = sh([sys.executable, os.path.join(VERIF, 'translators', 'gen_nlguards.py'), REPO,
+                       os.path.join(LEAN, 'MpVerif', 'Gen', 'NLGuards.lean'), trdir], timeout=600)
+    ck.log((out.strip() or err.strip())[-300:])
+    translator_failed = rc != 0
+    if translator_failed:
+        ck.add_violation('translator:nlguards', 'the guard translator cannot translate the current reader source: ' + (out + err)[-400:],
+                         {'cmd': 'translators/gen_nlguards.py', 'output': (out + err)[-1500:]}, found_input=False)
 
     # 2. proof obligations
     proof_ok, failing = ck.proof_stage('MpVerif.C02.Props', 'MpVerif/C02/Props.lean', 'C02_',
-                                        ['MpVerif/C02/*.lean', 'MpVerif/Gen/Opcodes.lean'], expect_min=EXPECT_THEOREMS)
-    ck.log('proof stage: ok=%s failing=%s' % (proof_ok, failing[:8]))
+                                        ['MpVerif/C02/*.lean', 'MpVerif/Gen/Opcodes.lean', 'MpVerif/Gen/NLGuards.lean'], expect_min=EXPECT_THEOREMS)
+    # name the failing declaration for errors outside Props.lean (the tie modules)
+    def decl_at(entry):
+        m = re.match(r'(MpVerif/C02/\w+\.lean):(\d+)$', entry)
+        if not m:
+            return entry
+        try:
+            lines = open(os.path.join(LEAN, m.group(1))).read().split('\n')
+            for k in range(min(int(m.group(2)), len(lines)) - 1, -1, -1):
+                mm = re.match(r'\s*(?:theorem|def|example)\s+([\w.\']+)', lines[k])
+                if mm:
+                    return '%s (%s)' % (mm.group(1), entry)
+        except OSError:
+            pass
+        return entry
+    failing = list(dict.fromkeys(decl_at(f) for f in failing))
+    # the translator-tie theorems live in their own modules: audit them too
+    if proof_ok:
+        for mod in ('MpVerif.C02.GenTie', 'MpVerif.C02.GenTieLex', 'MpVerif.C02.GenTieStruct'):
+            aok, thms, aout = ck.prop_theorems(mod, 'C02_')
+            if not aok or not thms:
+                proof_ok = False
+                failing.append('axiom-audit of %s' % mod)
+            for n, ax in thms:
+                extra = [a for a in ax if a not in ALLOWED_AXIOMS]
+                if extra:
+                    proof_ok = False
+                    failing.append('%s uses axioms %s' % (n, extra))
+            ck.cov['theorems'] = ck.cov.get('theorems', []) + [n for n, _ in thms]
+            ck.cov['obligations'] = ck.cov.get('obligations', 0) + len(thms)
+            ck.cov['discharged'] = ck.cov.get('discharged', 0) + len(thms)
+    ck.log('proof stage: ok=%s failing=%s (%d theorems)' % (proof_ok, failing[:8], len(ck.cov.get('theorems', []))))
     if ck.tier == 'thorough' and proof_ok:
         bad = ck.leanchecker(['MpVerif.C02.Props'])
         if bad:
@@ -602,7 +640,7 @@ def run(ck):
                                'harness/h_nlread.cc recording handler + error-class mapping; checks/c02.py oracle and comparison']
 
 
-EXPECT_THEOREMS = 12
+EXPECT_THEOREMS = 14
 
 
 def replay(ck, path):
